@@ -77,7 +77,7 @@ class C05(CheckBase):
 
     def gen(self, seed, i, tier):
         r = core.rng(seed, "C05", i)
-        nbase = 40 if tier == "quick" else 400
+        nbase = 220 if tier == "quick" else 1500
         # the first plans of a batch are the exhaustive truncation sweep of SWEEP[tier] small base files
         sw = self.sweep_index(seed, i, tier)
         if sw is not None:
